@@ -179,3 +179,24 @@ package haproxy
 //@   at call ChangedShards#1 assert main-first: calls(TmplWrite) == 3
 //@   at call BuildSortedShard#1 assert own-shard: $arg1 == shards[$idx(2)-1]
 //@ end
+
+// ---------------------------------------------------------------------------
+// C11 — after a reload every dynamic backend has a slot count that is a
+// multiple of its slots increment
+
+//@ spec func backendsKeyed(b *hatypes.Backends) bool = b != nil && b.items != nil && b.changedShards != nil &&
+//@     forall id string :: in(id, b.items) ==> b.items[id] != nil && b.items[id].ID == id
+
+//@ func (*dynUpdater).alignSlots
+//@   props C11
+//@   assumes keyed: d.config != nil && backendsKeyed(d.config.backends)
+//@   ensures aligned: forall id string :: in(id, d.config.backends.items) && d.config.backends.items[id].Dynamic.DynUpdate ==>
+//@       len(d.config.backends.items[id].Endpoints) % max(d.config.backends.items[id].Dynamic.BlockSize, 1) == 0
+//@   loop 1 invariant keyed: backends == old(d.config.backends) && d.config == old(d.config) && d.config.backends == old(d.config.backends) && backendsKeyed(backends) && backends.items == old(d.config.backends.items)
+//@   loop 1 invariant dom:   forall id string :: in(id, backends.items) == old(in(id, d.config.backends.items)) && backends.items[id] == old(d.config.backends.items[id])
+//@   loop 1 invariant done:  forall id string :: $seen(1, id) && in(id, backends.items) && backends.items[id].Dynamic.DynUpdate ==>
+//@       len(backends.items[id].Endpoints) % max(backends.items[id].Dynamic.BlockSize, 1) == 0
+//@   loop 2 invariant count: true
+//@   loop 3 invariant grow:  blockSize == max(back.Dynamic.BlockSize, 1) && back.Dynamic.DynUpdate
+//@   loop 4 invariant fill:  blockSize == max(back.Dynamic.BlockSize, 1) && back.Dynamic.DynUpdate && 0 <= i && i <= newFreeSlots && (len(back.Endpoints) + newFreeSlots - i) % blockSize == 0
+//@ end
